@@ -35,6 +35,7 @@ prop('C01', [k('k_short', 'C01')], [FOREIGN], KANI_TB)
 prop('C02', [k('k_short', 'C02')], [FOREIGN], KANI_TB)
 prop('C03', [k('k_short', 'C03')], [FOREIGN], KANI_TB)
 prop('C06', [k('k_short', 'C06')], [FOREIGN], KANI_TB)
+prop('C19', [k('k_serde', 'C19', 'serde')], ['ill-shaped inputs beyond arbitrary integer/bool/unit tokens (strings, floats, nested containers) and format-specific behaviour of concrete serde formats are not driven', 'derive(Serialize) emits fields in declaration order'], KANI_TB)
 prop('C04', [k('k_newtype', 'C04'), k('k_newtype', 'C04', 'none'), v('v_msg', 'C04'), v('v_cc14', 'C04'), v('v_nrpn', 'C04'), v('v_poll', 'C04')],
      ['restricted-integer inputs of every harness / contract are assumed in range (type invariant as precondition)', B1], VERUS_TB + KANI_TB)
 prop('C05', [k('k_newtype', 'C05')], ['Hash agreement with the numeric value is not examined (derived)'], KANI_TB)
@@ -94,4 +95,7 @@ DESC['C03'] = {'engine': 'kani', 'ref': '5/C03', 'technique': 'Kani relational h
                'text': 'Complete proof over all valid triples: 16 observers agree between raw and structured/foreign/overriding-foreign implementors, data bytes differ at most in information-free parts, to_other/from_other commute with accessors.', 'note': KNOTE + 'Arbitrary other third-party implementors: parametricity assumption.'}
 DESC['C06'] = {'engine': 'kani', 'ref': '5/C06', 'technique': 'Kani harnesses per constructor and implementor against expected_bytes from the statement; documented panics proved exact by unreachability of the return point',
                'text': 'Complete proof for all argument tuples of the 19 named + 3 generic constructors on three implementors and of the test_util shorthands; wrong-category / out-of-range calls panic for every such input.', 'note': KNOTE}
-NOT_APPLICABLE = {p: 'check under construction in this session (Kani unit not yet registered)' for p in ('C19',)}
+DESC['C19'] = {'engine': 'kani', 'ref': '5/C19', 'technique': 'Kani harnesses driving the derive-generated Deserialize impls through a token deserializer with symbolic tokens (seq and map form); postcondition Ok(v) ==> constructor invariant',
+               'text': 'Complete proof (loop-free / fully unwound) for every public type that any token stream of integer/bool/unit tokens either fails to deserialize or yields a value satisfying the invariant of the checked constructors; exhaustive over u16 for the restricted integers; in-order representation of every valid value deserializes to an equal value.',
+               'note': KNOTE + 'serde/serde_derive/serde_repr generated code is under proof; concrete data formats (serde_json etc.) are not involved.'}
+NOT_APPLICABLE = {}
